@@ -208,9 +208,11 @@ func genC18DeleteAll(r *rand.Rand) *Scenario {
 		be.Keys = append(be.Keys, []byte(fmt.Sprintf("new-%d-%d", i, r.IntN(1000))))
 	}
 
-	be.Clients = [][]BEOp{{{Kind: "deleteAll"}}}
-	if chance(r, 0.3) {
-		be.Clients = append(be.Clients, []BEOp{{Kind: "deleteAll"}})
+	kind := pick(r, "deleteAll", "deleteAll", "expireAll")
+	be.Clients = [][]BEOp{{{Kind: kind}}}
+
+	if chance(r, 0.3) && kind == "deleteAll" {
+		be.Clients = append(be.Clients, []BEOp{{Kind: kind}})
 	}
 
 	nw := 1 + r.IntN(3)
@@ -405,6 +407,12 @@ func (r *beRun) oracleC18BE() {
 
 	if len(r.sc.Clients) > 1 && len(r.sc.Clients[0]) > 0 && r.sc.Clients[0][0].Kind == "deleteAll" {
 		r.oracleC18DeleteAll()
+
+		return
+	}
+
+	if len(r.sc.Clients) > 1 && len(r.sc.Clients[0]) > 0 && r.sc.Clients[0][0].Kind == "expireAll" {
+		r.oracleC18ExpireAll()
 
 		return
 	}
@@ -730,4 +738,38 @@ func (r *beRun) modeEvictConc() {
 	out.probe("order_checked")
 	out.NonTrivial = true
 	out.Outcome = fmt.Sprintf("evictconc n=%d removed=%d", len(before), len(removed))
+}
+
+// oracleC18ExpireAll: one ExpireAll runs while other clients write keys that did not exist before
+// (long TTL, no reads): the entries it touched are exactly those that read as expired afterwards, and
+// cache_expired must equal their number.
+func (r *beRun) oracleC18ExpireAll() {
+	out := r.e.out
+	expired := 0
+
+	now := time.Now().UnixNano()
+
+	_, _ = r.bk.walk(func(_ []byte, _ interface{}, exp time.Time) error {
+		if e := exp.UnixNano(); e != 0 && e < now {
+			expired++
+		}
+
+		return nil
+	})
+
+	got := 0.0
+
+	for _, s := range r.stats {
+		if !s.set && s.label == "be" && s.name == cache.MetricExpired {
+			got += s.val
+		}
+	}
+
+	out.probe("expireAll_concurrent_with_writes")
+
+	if int(got) != expired {
+		out.violate("C18.reads", r.sc.Backend+" expireAll-count-under-concurrency", "ExpireAll ran alongside writes of new keys: %d entries are expired afterwards (the ones it touched), but cache_expired = %v", expired, got)
+	}
+
+	out.Outcome = fmt.Sprintf("expireAll conc expired=%d", expired)
 }
